@@ -25,7 +25,27 @@ mkdir -p "$VERIF_OUT/evidence" "$VERIF_TARGET"
 LOG="$VERIF_TARGET/build-$$.log"
 build() { cargo build --quiet --profile "$1" --target-dir "$VERIF_TARGET" "${CARGO_EXTRA[@]}" >"$LOG" 2>&1; }
 if ! build checked; then
-  # a build failure (of /repo or of the harness) is never a property violation
+  # a build failure (of /repo or of the harness) is never a property violation - with one exception: the
+  # harness shares &AsepriteFile across threads, so a sprite type that stopped being Send + Sync breaks the
+  # harness build too. For C16 that compile-time fact IS the violation (decided by the c16_traits crate).
+  if [ "$ID" = "C16" ] || [ "$ID" = "c16" ]; then
+    TLOG="$VERIF_TARGET/c16-traits.log"
+    if ! (cd c16_traits && cargo check --quiet --target-dir "$VERIF_TARGET/c16" "${CARGO_EXTRA[@]}" >"$TLOG" 2>&1) && grep -q -E "cannot be (sent|shared) between threads safely" "$TLOG"; then
+      mkdir -p "$VERIF_OUT/evidence/replay"
+      cp "$TLOG" "$VERIF_OUT/evidence/replay/C16-traits-build.log"
+      TIER="${2:-quick}"; [ "$TIER" = "thorough" ] || TIER=quick
+      cat > "$VERIF_OUT/evidence/C16.json" <<JSON
+{"property_id": "C16", "tier": "$TIER", "seed": ${VERIF_SEED:-1}, "level": "exploration", "wall_s": 0.0, "violations": 1,
+ "coverage": {"evaluations": 1, "distinct_nontrivial": 2, "rule": "compile-time clause only: the c16_traits crate (Send + Sync instantiated for AsepriteFile and its reference types) failed to compile with a Send/Sync error; the run-time part of the check could not be built for the same reason. distinct_nontrivial counts the two trait obligations (Send, Sync) that were attempted",
+  "samples": ["assert_send_sync::<asefile::AsepriteFile>()"], "compiler_log": "$VERIF_OUT/evidence/replay/C16-traits-build.log"}}
+JSON
+      echo "  failure [not-send-sync]: the sprite type (or a reference type handed out by it) is no longer Send + Sync"
+      grep -E "cannot be (sent|shared) between threads safely" "$TLOG" | head -3
+      echo "VIOLATION property=C16 replay=$VERIF_OUT/evidence/replay/C16-traits-build.log"
+      rm -f "$LOG"
+      exit 1
+    fi
+  fi
   echo "INCONCLUSIVE property=$ID reason=harness-or-repo-build-failed (see below)"
   grep -E "^error" -A 12 "$LOG" | head -60
   rm -f "$LOG"
